@@ -1,6 +1,7 @@
 """C20 - all list queries paginate completely: every item once, in order, within limits."""
 from ..engine import show, OPTION
 from ..idioms import dispatch, entry_points, storage_items, walk
+from .listing import extract, page_size_problem, deep_walk
 
 ID = "C20"
 NONE = ("variant", OPTION, "None", ())
@@ -61,24 +62,24 @@ def run(ctx):
             for p in ps:
                 if p.is_err():
                     continue
-                takes = [x for x in walk(p.ret) if x[0] == "call" and x[1].endswith("Iterator::take")]
-                ranges = [x for x in walk(p.ret) if x[0] == "call" and x[1].split("::")[-1] in ("range", "keys", "range_raw", "keys_raw")
-                          and x[1].split("::")[0] in ("Map", "Prefix", "SnapshotMap", "IndexedMap")]
+                L = extract(p)
                 if spec is None:
-                    if ranges and variant is not None:
-                        for r in ranges:
-                            unb = r[2][1] == NONE and r[2][2] == NONE
-                            if takes or not unb:
-                                ctx.ob("R20.1", "%s::query/%s (listing not in the table)" % (crate, variant), False,
-                                       detail="paginated listing %s is not covered by the listing table: add it" % variant)
+                    if L is not None and variant is not None:
+                        r = L.rng
+                        unb = r[2][1] == NONE and r[2][2] == NONE
+                        if L.page is not None or not unb:
+                            ctx.ob("R20.1", "%s::query/%s (listing not in the table)" % (crate, variant), False,
+                                   detail="paginated listing %s is not covered by the listing table: add it" % variant)
                     continue
                 key = "%s::query/%s" % (crate, variant)
-                if len(takes) != 1 or len(ranges) != 1:
-                    ctx.ob("R20.1", key + "/shape", False, detail="expected one range and one take, found %d / %d: %s" % (len(ranges), len(takes), show(p.ret)[:200]))
+                if L is None or L.problem or L.page is None:
+                    why = "no storage range feeds the answer" if L is None else (L.problem or "the range is not cut to a page "
+                                                                                 "(no take(n), no `len < n` loop guard)")
+                    ctx.ob("R20.1", key + "/shape", False, detail="%s: %s" % (why, show(p.ret)[:200]))
                     continue
                 found[(crate, variant)] = found.get((crate, variant), 0) + 1
                 seen += 1
-                check_listing(ctx, p, key, crate, variant, spec, takes[0], ranges[0])
+                check_listing(ctx, p, key, crate, variant, spec, L)
     for k in sorted(LISTINGS):
         ctx.ob("R20.1", "floor:%s::%s analysed" % k, found.get(k, 0) >= 2, trivial=True,
                detail="listing %s::%s not found with and without cursor (paths %d)" % (k[0], k[1], found.get(k, 0)))
@@ -94,21 +95,22 @@ def run(ctx):
                    detail="; ".join(o.details), sites=o.sites, sample=o.sample, trivial=o.trivial)
 
 
-def check_listing(ctx, p, key, crate, variant, spec, take, rng):
+def check_listing(ctx, p, key, crate, variant, spec, L):
+    rng = L.rng
     ns_crate, ns, prefix, cursor_field, order, kind = spec
     it = storage_items(ctx.engine, ns_crate)
     item = it.get(ns)
     msgv = ("param", "msg")
     # ---- R20.1
     lim = ("vfield", msgv, variant, "limit")
-    want = ("call", "min", (("unwrap_or", lim, ("lit", 10)), ("lit", 30)))
-    ctx.ob("R20.1", key + "/limit", take[2][1] == want,
-           detail="page size is %s, not min(limit.unwrap_or(10), 30)" % show(take[2][1])[:160], sample={"take": show(take[2][1])[:120]})
+    prob = page_size_problem(p, L.page, lim)
+    ctx.ob("R20.1", key + "/limit", (None if prob.startswith("UNDECIDED") else False) if prob else True,
+           detail="%s; expected min(limit.unwrap_or(10), 30)" % prob, sample={"page": show(L.page)[:120], "how": L.page_how})
     # ---- R20.3
-    outer_filters = [x for x in walk(p.ret) if x[0] == "call" and x[1].endswith(("Iterator::filter", "Iterator::filter_map", "Iterator::skip_while", "Iterator::skip"))
-                     and any(y is take or y == take for y in walk(x[2][0]))]
-    ctx.ob("R20.3", key + "/filter before take", not outer_filters,
-           detail="the page is cut before filtering: %s" % [show(x)[:120] for x in outer_filters], sample={"chain": show(take[2][0])[:160]})
+    skipped = L.page_how == "take" and L.took and L.pushed is None
+    ctx.ob("R20.3", key + "/filter before take", not L.after and not skipped,
+           detail="the page is cut before filtering: %s" % ([show(x)[:120] for x in L.after] or "an element taken after take() is skipped by the loop body"),
+           sample={"before": [show(x[2][1])[:80] for x in L.before], "page_how": L.page_how})
     # ---- R20.4
     src = rng[2][0]
     if prefix is None:
@@ -176,11 +178,11 @@ def check_flex_voters(ctx):
     for p in groups.get("ListVoters", []):
         if p.is_err():
             continue
-        q = [x for x in walk(p.ret) if x[0] == "variant" and x[2] == "ListMembers"]
+        q = [x for x in deep_walk(p, p.ret) if x[0] == "variant" and x[2] == "ListMembers"]
         n += 1
         good = len(q) >= 1 and dict(q[0][3]) == {"start_after": ("vfield", ("param", "msg"), "ListVoters", "start_after"),
                                                 "limit": ("vfield", ("param", "msg"), "ListVoters", "limit")}
-        extra = [x for x in walk(p.ret) if x[0] == "call" and x[1].endswith(("Iterator::take", "Iterator::skip", "Iterator::filter"))]
+        extra = [x for x in deep_walk(p, p.ret) if x[0] == "call" and x[1].endswith(("Iterator::take", "Iterator::skip", "Iterator::filter"))]
         ctx.ob("R20.6", "cw3_flex_multisig::query/ListVoters", good and not extra,
                detail="ListVoters does not forward (start_after, limit) unchanged to the group's ListMembers: %s" % show(p.ret)[:240],
                sample={"forwarded": show(q[0])[:200] if q else None})
